@@ -5,7 +5,8 @@ import os, re, shutil, hashlib, logging, urllib.parse
 from .common import cssutils, init as common_init, outcome
 import cssutils.script
 
-PROPS = ["background-image", "list-style-image", "cursor", "x-a", "x-b", "x-c"]
+# (the same URL-bearing property twice with another one in between: the fallback idiom)
+PROPS = ["background-image", "cursor", "background-image", "list-style-image", "x-a", "x-b"]
 
 
 # ---- references <-> strings -------------------------------------------------------------------------------------------------
@@ -50,7 +51,9 @@ def decls(urls, quote):
     out = []
     if quote % 3 == 1 and len(urls) >= 2:
         # every url() of the block as an argument of a function: a url() value all the same
-        return "background-image: image-set(%s)" % ", ".join('url("%s") %dx' % (ref_text(r), i + 1) for i, r in enumerate(urls))
+        inner = ", ".join('url("%s") %dx' % (ref_text(r), i + 1) for i, r in enumerate(urls[:-1]))
+        # ... one of them two function levels deep
+        return "background-image: cross-fade(image-set(%s), url(%s))" % (inner, ref_text(urls[-1]))
     for i, r in enumerate(urls):
         u = ref_text(r)
         form = ['url(%s)', 'url("%s")', "url('%s')"][(i + quote) % 3]
